@@ -7,6 +7,7 @@ from ..framework import Prop, mk, guarded, ensure_repo_on_path
 from . import c13_hist as H
 
 CHAINS = ('mainnet', 'testnet', 'signet', 'regtest')
+SECRET_VER = {'mainnet': 128, 'testnet': 239, 'signet': 239, 'regtest': 239}      # only to classify cases in/out of domain
 N = 0xFFFFFFFFFFFFFFFFFFFFFFFFFFFFFFFEBAAEDCE6AF48A03BBFD25E8CD0364141
 P = 2 ** 256 - 2 ** 32 - 977
 HALF = N // 2
@@ -109,28 +110,11 @@ def hist_shrinks(c):
             yield mk(c['op'], '|'.join(rest), tag=c.get('tag', ''))
 
 
-class CorrespondenceLost(RuntimeError):
-    """the harness can no longer observe what a theorem's function is about: not an outcome of the library but a
-    broken tie — propagates out of impl(), the framework reports `correspondence:…:harness-run`"""
-
-
-def guarded_keep(fn, keep):
-    from ..framework import exc_family
-    try:
-        return fn()
-    except keep:
-        raise
-    except RecursionError:
-        return 'err:py:RecursionError'
-    except Exception as e:  # noqa: BLE001
-        return 'err:' + exc_family(e)
-
-
 class EcdsaSignSpy:
     """stands in for the ctypes library object of bitcoin.core.key while one signature is made; records the DER
     bytes ECDSA_sign wrote (before the library's low-S normalisation).  If the library stops calling
-    `_ssl.ECDSA_sign` (e.g. the libsecp256k1 signing branch is enabled), nothing is recorded: the tie of
-    `signFinish` is then broken and impl() raises CorrespondenceLost."""
+    `_ssl.ECDSA_sign` (e.g. the libsecp256k1 signing branch is enabled, or the function is bound at import), nothing
+    is recorded and the auxiliary case reports itself unobservable (err:harness:EcdsaSignNotObserved)."""
     def __init__(self, lib):
         self._lib = lib
         self.raw = None
@@ -150,7 +134,8 @@ class EcdsaSignSpy:
 class C13(Prop):
     id = 'C13'
     title = 'Keys: pubkey derivation, WIF round trip, ECDSA sign/verify match secp256k1'
-    table_groups = ['ChainAddr']
+    table_groups = []      # the two table bytes C13 depends on (SECRET_KEY per chain) are tied by T2 directly: `c13.key`
+                           # compares the version byte and the WIF text under each chain (B8: no shared ChainAddr obligation)
     lean_targets = ['BtcVerif.Props.C13', 'BtcVerif.Props.Coherence']
     theorems = ['BtcVerif.C13.' + t for t in (
         'p_eq', 'p_eq_sec2', 'n_eq', 'n_lt_p', 'p_mod_4', 'G_on_curve', 'G_onCurve', 'n_mul_G', 'n_pred_mul_G',
@@ -183,8 +168,13 @@ class C13(Prop):
                    'theorem o15_infinity_key): secrets 0 and n are accepted silently, pub = 00 (infinity), reported fully '
                    'valid, is_compressed false whatever was asked; CPubKey(b"\\x00").is_fullyvalid is True',
                    'the libsecp256k1 signing branch of CECKey.sign (use_libsecp256k1_for_signing) is not modelled: the '
-                   'library is not installed here; if signing stops going through _ssl.ECDSA_sign the check reports a '
-                   'broken tie (CorrespondenceLost), it does not skip',
+                   'library is not installed here; the tie of signFinish to the raw ECDSA_sign output (c13.signraw, via the '
+                   'private handle bitcoin.core.key._ssl) is AUXILIARY: if it cannot be observed the cases are listed as '
+                   'unobservable; the statement itself is judged from outside by c13.sign / c13.matrix',
+                   'auxiliary ties (not in the statement; unobservable if the helper disappears): CompareBigEndian, '
+                   'IsLowDERSignature and signature_to_low_s called directly; CECKey-level histories (ood); inputs outside the '
+                   'quantifier are tagged ood: digests not 32 bytes, keys not 33/65 bytes, secrets outside [1,n-1], foreign '
+                   'WIF payloads/prefixes, non-strict-DER input to IsLowDERSignature, s >= n',
                    'signature_to_low_s for s > n raises ValueError (mirrored: signatureToLowS_above_order), off the sign domain',
                    'theorems about CECKey.sign / signature_to_low_s hold under the OpenSSL contract: ECDSA_sign returns the '
                    'strict DER of some (r, s), r < 2^256, 0 < s < n; d2i/i2d are the strict DER codec']
@@ -219,7 +209,7 @@ class C13(Prop):
         for _ in range(10 if big else 2):
             yield mk('c13.hist', '|'.join(H.gen_chain_history(rng, mat)), tag='hist-chains')
         for _ in range(30 if big else 3):
-            yield mk('c13.hist', '|'.join(H.gen_eckey_history(rng, mat)), tag='hist-eckey')
+            yield mk('c13.hist', '|'.join(H.gen_eckey_history(rng, mat)), tag='hist-eckey', ood=True)   # CECKey internals: auxiliary
         nkeys = 6000 if big else 300
         secs = secrets(crng, nkeys)                                   # same list in every shard
         mine = [(j, s) for j, s in enumerate(secs) if j % nshards == shard]
@@ -237,9 +227,9 @@ class C13(Prop):
             for sv in (0, N, N + 1, N + 2, 2 ** 256 - 1, 2 * N if 2 * N < 2 ** 256 else N):
                 for comp in (1, 0):
                     for chain in CHAINS:
-                        yield mk('c13.key', chain, sv.to_bytes(32, 'big').hex(), comp, tag='key-out-of-range')
+                        yield mk('c13.key', chain, sv.to_bytes(32, 'big').hex(), comp, tag='key-out-of-range', ood=True)
             for pk in ('00', '0000', '01', '02', '04', '-'):
-                yield mk('c13.fullyvalid', pk, tag='pubkey-infinity')
+                yield mk('c13.fullyvalid', pk, tag='pubkey-infinity', ood=True)
 
         # (b) WIF parsing of foreign payloads: versions, lengths, compression markers
         vers = sorted({128, 239, 0, 5, 111, 196, 127, 129, 238, 240, 255} | {v for v in self.pool if 0 <= v <= 255})
@@ -250,7 +240,10 @@ class C13(Prop):
             for chain in CHAINS:
                 for ver in (vers if j < nshards else [128, 239, rng.choice(vers)]):
                     for pl in pls:
-                        yield mk('c13.wifparse', chain, ver, pl.hex(), tag='wif')
+                        # in the statement: WIF strings of a 32-byte secret with or without the 01 marker under the
+                        # selected chain's prefix; everything else (foreign prefix, other lengths / markers) is ood
+                        ind = pl in (sb, sb + b'\x01') and ver == SECRET_VER[chain]
+                        yield mk('c13.wifparse', chain, ver, pl.hex(), tag='wif' if ind else 'wif-foreign', ood=not ind)
 
         # (c) library signs -> reference judges; verification matrix around each signature
         ds = digests(crng, 6 if big else 2)
@@ -260,9 +253,10 @@ class C13(Prop):
             hs = ds[:6] if j < 2 * nshards else [ds[j % len(ds)], bytes(rng.randrange(256) for _ in range(32))]
             for h in hs:
                 yield mk('c13.sign', sb, comp, h.hex(), tag='sign')
+                yield mk('c13.signraw', sb, comp, h.hex(), tag='sign-raw-aux')
             if j < 2 * nshards:
                 for ln in (0, 1, 31, 33, 64):
-                    yield mk('c13.signlen', sb, comp, bytes(rng.randrange(256) for _ in range(ln)).hex(), tag='sign-length')
+                    yield mk('c13.signlen', sb, comp, bytes(rng.randrange(256) for _ in range(ln)).hex(), tag='sign-length', ood=True)
             h = hs[-1]
             h2 = bytes(rng.randrange(256) for _ in range(32))
             for v in range(NVARIANTS):
@@ -306,7 +300,7 @@ class C13(Prop):
                 cands.append(bytes([t]) + x + y)            # 65 bytes under a compressed tag
             cands.append(b'\x04' + x + y[:-1] + bytes([y[-1] ^ 1]))
             for pk in cands:
-                yield mk('c13.fullyvalid', pk.hex(), tag='pubkey')
+                yield mk('c13.fullyvalid', pk.hex(), tag='pubkey', ood=len(pk) not in (33, 65))
         for _ in range(2000 if big else 60):
             xr = rng.randrange(P)
             yield mk('c13.fullyvalid', (bytes([rng.choice([2, 3])]) + xr.to_bytes(32, 'big')).hex(), tag='pubkey')
@@ -334,13 +328,13 @@ class C13(Prop):
                 continue
             for rv in (rvals if big else [rvals[i % len(rvals)], rvals[(i // 3) % len(rvals)]]):
                 sg = der(rv, sv)
-                yield mk('c13.isLowDer', sg.hex(), tag='lowder')
+                yield mk('c13.isLowDer', sg.hex(), tag='lowder', ood=not (1 <= rv < N and sv < N))
                 if 1 <= sv < N and 1 <= rv < N:
                     yield mk('c13.toLowS', sg.hex(), tag='tolows')
         if shard == 0:      # N5: s >= n (off the sign domain): n gives (r, 0); above n the library raises ValueError
             for sv in (N, N + 1, N + 5, 2 ** 256 - 1, N - 1, HALF + 1):
                 for rv in (1, 0x1234, N - 1):
-                    yield mk('c13.toLowS', der(rv, sv).hex(), tag='tolows-above-order')
+                    yield mk('c13.toLowS', der(rv, sv).hex(), tag='tolows-above-order', ood=True)
         base = der(crng.randrange(1, N), HALF)
         lr = base[3]
         muts = [base[:k] for k in range(len(base))]                       # every truncation
@@ -367,7 +361,7 @@ class C13(Prop):
         for m in muts:
             i += 1
             if i % nshards == shard:
-                yield mk('c13.isLowDer', m.hex(), tag='lowder-malformed')
+                yield mk('c13.isLowDer', m.hex(), tag='lowder-malformed', ood=True)       # not strict DER
         lists = [b'', b'\x00', b'\x01', b'\x00\x00', b'\x00\x01', b'\x01\x00', b'\xff', b'\x00\xff', b'\x7f\xff',
                  b'\x80\x00', b'\x00\x00\x00', b'\x00\x80\x00']
         pairs = [(a, b) for a in lists for b in lists]
@@ -421,25 +415,39 @@ class C13(Prop):
                     return '%s,%d,%s' % (bytes(k)[0:32].hex(), 1 if k.is_compressed else 0, bytes(k.pub).hex())
                 return guarded(f)
             if op == 'c13.sign':
+                # the property-carrying observation, entirely from the outside: sign, then the reference judges
+                # strict DER / low S / the verification equation (model line c13.signcheck with raw = '-')
                 c['aux'] = ['00', '-']
 
                 def f():
                     k = self._secret(a[0], a[1])
                     h = bytes.fromhex(a[2])
-                    spy = EcdsaSignSpy(K._ssl)
-                    K._ssl = spy                      # observe what ECDSA_sign returned before the low-S step
+                    sig = k.sign(h)
+                    c['aux'] = [bytes(sig).hex(), '-']
+                    if k.pub.verify(h, sig) is not True:
+                        return 'bad:own-signature-not-verified'
+                    return 'ok'
+                return guarded(f)
+            if op == 'c13.signraw':
+                # AUXILIARY tie of Model.Keys.signFinish: needs to see what ECDSA_sign wrote, through the private
+                # handle `bitcoin.core.key._ssl`.  If the handle is gone / not used any more the tie is unobservable
+                # (err:harness:…, a NOTE in the evidence) — never a verdict.
+                c['aux'] = ['00', '-']
+
+                def f():
+                    k = self._secret(a[0], a[1])
+                    h = bytes.fromhex(a[2])
+                    spy = EcdsaSignSpy(K._ssl)            # AttributeError here is raised in this harness frame
+                    K._ssl = spy
                     try:
                         sig = k.sign(h)
                     finally:
                         K._ssl = spy._lib
                     if not spy.raw:
-                        raise CorrespondenceLost('CECKey.sign did not call _ssl.ECDSA_sign: the output of ECDSA_sign '
-                                                 'cannot be observed, so Model.Keys.signFinish is no longer tied')
+                        return 'err:harness:EcdsaSignNotObserved'
                     c['aux'] = [bytes(sig).hex(), spy.raw.hex()]
-                    if k.pub.verify(h, sig) is not True:
-                        return 'bad:own-signature-not-verified'
                     return 'ok'
-                return guarded_keep(f, CorrespondenceLost)
+                return guarded(f)
             if op == 'c13.signlen':
                 return guarded(lambda: 'ok:' + bytes(self._secret(a[0], a[1]).sign(bytes.fromhex(a[2]))).hex())
             if op == 'c13.matrix':
@@ -480,7 +488,7 @@ class C13(Prop):
         op, a = c['op'], c['args']
         if op == 'c13.hist':
             return '\t'.join(['c13.hist', a[0]] + list(c.get('aux', [])))
-        if op == 'c13.sign':
+        if op in ('c13.sign', 'c13.signraw'):
             return '\t'.join(['c13.signcheck', a[0], a[1], a[2]] + list(c.get('aux', ['00', '-'])))
         if op == 'c13.signlen':
             return '\t'.join(['c13.signFinish', a[2] or '', '00'])
